@@ -41,7 +41,14 @@ PROP = Prop(
                      bound='generated training lists of 35 passwords (words, multi-words, digits, years, symbols, keyboard walks, context strings, spaces, Cyrillic/Greek/Latin-1, '
                            'non-BMP, duplicates); (coverage, n-gram) in {(0.6,4),(1.0,3)} quick, +{(0.3,2),(0.6,5)} thorough; real trainer and guesser CLIs',
                      clause='every training password whose structure has no e-mail/website segment (letters with one-to-one case mapping) is in the --skip_brute stream; '
-                            'the sum over pre-terminals of probability x number of guesses is 1 (1e-9) and that number equals the lines written')],
+                            'the sum over pre-terminals of probability x number of guesses is 1 (1e-9) and that number equals the lines written'),
+             Bounded('C03.bounded.expand', 'replay/expand.py', args=['--fn', 'PcfgGrammar._recursive_guesses'],
+                     bound='random small rulesets, groups of 1-3 masks of any U/L pattern, every pre-terminal',
+                     clause='cross-check: every combination of one value per group is written, each mask applied to the word before it'),
+             Bounded('C03.bounded.loader_base', 'replay/loader.py', args=['--fn', '_load_base_structures'],
+                     bound='grammar.txt files of 1-6 lines, M line first/middle/last/absent, both skip_brute values',
+                     clause='cross-check: --skip_brute renormalises every remaining base structure by 1 - P(M)')],
+    # (cross-checks of two functions of the chain on the real code: they keep the property decided when a change moves one of them out of the verifiable subset)
     assumptions=[
         'the composition (tiling -> tally -> one line per item -> loaded group -> product expansion -> every pre-terminal emitted) is argued in DESIGN.md section 5/C03 from the '
         'contracts discharged here and in C02, C04, C05, C06, C07, C14; it is not itself a machine-checked obligation',
